@@ -164,6 +164,8 @@ class C06(Driver):
         caps = plan["caps"]
         model = chanmodel.Replay(caps, len(plan["fibers"]))
         pending = {}
+        vseq = {}       # id(violation) -> sequence number of the event that showed it (absent: known only at the end)
+        fail_seq = None
         given = {}      # value -> (channel, fiber, kind)
         for (f, i), op in ops.items():
             if op["op"] == "give":
@@ -183,6 +185,8 @@ class C06(Driver):
                     op = ops[(f, i)]
                     pending[f] = (i, op)
                     model.inv(f, op)
+                    if model.fail and fail_seq is None:
+                        fail_seq = e.seq
                 elif e.kind == "ret":
                     toks = e.payload.split(" ")
                     f, i = int(toks[0]), int(toks[1])
@@ -202,12 +206,16 @@ class C06(Driver):
                         if v not in given or given[v][0] != c:
                             vs.append(Violation("C06/conservation/received-value-never-given-on-channel",
                                                 "fiber %d received %r on channel %d" % (f, v, c)))
+                            vseq[id(vs[-1])] = e.seq
                         elif v in received:
                             vs.append(Violation("C06/conservation/value-received-twice", "value %r" % v))
+                            vseq[id(vs[-1])] = e.seq
                         else:
                             received[v] = (f, e.seq)
                             recv_order.setdefault((given[v][1], f, c), []).append(v)
                     model.ret(f, r, op)
+                    if model.fail and fail_seq is None:
+                        fail_seq = e.seq
         except chanmodel.TooWide:
             too_wide = True
         # phantom items: a select give clause whose value was received although the select reported another clause
@@ -242,6 +250,8 @@ class C06(Driver):
                     f = int(detail.split(" ")[1])
                     facts = "/op=%s" % detail.split(" ")[3]
                 vs.append(Violation("C06/model/%s%s" % (cls, facts), detail))
+                if cls != "lost-wakeup" and fail_seq is not None:
+                    vseq[id(vs[-1])] = fail_seq
         # Attribution to the two recorded findings (see known_findings.json, DESIGN.md 5):
         #  * a select that names one channel in several clauses can match itself;
         #  * a select whose *blocked* give clause is abandoned (it returned through another clause)
@@ -251,10 +261,16 @@ class C06(Driver):
             if self.plan_class(plan):
                 vs = [Violation("C06/select-names-a-channel-twice/select-can-match-itself", vs[0].sig + ": " + vs[0].detail)]
             else:
-                taint = self.abandoned_give_clause(ops, res)
+                taint, since = self.abandoned_give_clause(ops, res)
                 if taint:
-                    vs = [Violation("C06/select/abandoned-blocked-give-clause-item-stays-in-channel",
-                                    "%s; first consequence: %s: %s" % (taint, vs[0].sig, vs[0].detail))]
+                    # (what the history showed before the earliest such select was even invoked cannot be a
+                    # consequence of the item it left behind)
+                    before = [v for v in vs if vseq.get(id(v), 1 << 60) < since]
+                    if before:
+                        vs = before
+                    else:
+                        vs = [Violation("C06/select/abandoned-blocked-give-clause-item-stays-in-channel",
+                                        "%s; first consequence: %s: %s" % (taint, vs[0].sig, vs[0].detail))]
         # de-duplicate signatures
         seen = set()
         out = []
@@ -265,7 +281,9 @@ class C06(Driver):
         return out
 
     def abandoned_give_clause(self, ops, res):
-        """first select that had to wait, had a give clause, and returned through another clause"""
+        """the earliest-invoked select that had to wait, had a give clause, and returned through another clause
+        -> (description, sequence number of its invocation) or (None, None)"""
+        best = (None, None)
         inv_seq = {}
         for e in res.events:
             if e.kind == "inv":
@@ -282,9 +300,9 @@ class C06(Driver):
                 r = self.parse_ret(op, toks[2:])
                 gives = [c for c in op["clauses"] if "give" in c]
                 left = [c for c in gives if not (r[0] == "give" and r[1] == c["give"])]
-                if left:
-                    return "fiber %d select %r returned %r leaving give clause(s) %r behind" % (f, op["clauses"], r, left)
-        return None
+                if left and (best[1] is None or inv_seq.get((f, i), 0) < best[1]):
+                    best = ("fiber %d select %r returned %r leaving give clause(s) %r behind" % (f, op["clauses"], r, left), inv_seq.get((f, i), 0))
+        return best
 
     def nontrivial(self, plan, res):
         # some operation had to wait, or a select/close ran
